@@ -10,6 +10,7 @@ PROPERTY_MODULES.update({
     "C08": "contracts.C08_hypotest",
     "C09": "contracts.C09_upper_limits",
     "C10": "contracts.C10_batching",
+    "C12": "contracts.C12_config",
     "C17": "contracts.C17_patchset",
     "C19": "contracts.C19_cli",
     "C20": "contracts.C20_refusal",
